@@ -104,6 +104,8 @@ pub fn eval(case: &Case) -> Verdict {
             }
         }
         "parse" => check_parse_range(Kind::from_index(case.i[0] as usize), &case.s[0], &case.s[1]).map(|_| ()),
+        "ts_add_days" => c08::check_add_days(case.i[0], i2f(case.i[1]), case.i[2] != 0).map(|_| ()),
+        "ora_add_days" => super::c16::check_add_days(case.i[0] as u8, case.i[1], i2f(case.i[2])).map(|_| ()),
         k => Err(format!("unknown case kind {k}")),
     };
     match r {
@@ -176,6 +178,39 @@ pub fn run(ctx: &Ctx) -> (Stats, Report) {
         st.merge(s);
     }
     st.class_n("operations-in-table", ops.len() as u64);
+    // fractional-day rows: offsets that are the exact complement to a range end (and its bit
+    // neighbours), for boundary and interior receivers: the result must be Err or in range
+    {
+        let recv = crate::pools::ts_pool(seed, if ctx.thorough { 20_000 } else { 3000 });
+        let rref = &recv;
+        let s = par_sweep(recv.len() as u64, 64, |range, st| {
+            for k in range {
+                let x = rref[k as usize];
+                for lim in [ts_min(), ts_max(), ora_max()] {
+                    let d = (lim - x) as f64 / US_PER_DAY as f64;
+                    for nb in -3i64..=3 {
+                        let f = f64::from_bits((d.to_bits() as i64 + nb) as u64);
+                        for sub in [false, true] {
+                            let ff = if sub { -f } else { f };
+                            st.evaluations += 2;
+                            st.fps.push(hash_ints(0x2c0, &[x, f2i(ff), sub as i128]));
+                            st.class("range-complement-day-offset");
+                            if let Err(m) = c08::check_add_days(x, ff, sub) {
+                                st.fail(k, Case::new(P, "ts_add_days", vec![x, f2i(ff), sub as i128], vec![]), m);
+                                return;
+                            }
+                            let which = if sub { 3u8 } else { 2 };
+                            if let Err(m) = super::c16::check_add_days(which, x, ff) {
+                                st.fail(k, Case::new(P, "ora_add_days", vec![which as i128, x, f2i(ff)], vec![]), m);
+                                return;
+                            }
+                        }
+                    }
+                }
+            }
+        });
+        st.merge(s);
+    }
     st.section("operation_table_pool_cross_products", &mut mark);
 
     // random operands (proptest) for unary / binary rows
